@@ -190,6 +190,33 @@ def _unpack_plaintext(data: bytes) -> bytes:
         raise _token_rejected() from exc
 
 
+def _decode_token(token: bytes) -> bytes:
+    """Base64-decode a token, accepting only the exact text the server emitted.
+
+    ``validate=True`` already refuses characters outside the alphabet, but it
+    still decodes a final quantum whose unused low bits are non-zero (``QR==``
+    and ``QQ==`` both give ``b"A"``).  Such a string is not a token this server
+    minted, yet it would open to the same envelope.  Re-encoding and comparing
+    leaves exactly one accepted spelling per envelope.
+
+    Args:
+        token: The base64 text from the request metadata.
+
+    Returns:
+        The decoded envelope bytes.
+
+    Raises:
+        ValueError: If ``token`` is not canonical standard-alphabet base64
+            (``binascii.Error`` is a ``ValueError`` subclass).
+
+    """
+    raw = base64.b64decode(token, validate=True)
+    if base64.b64encode(raw) != bytes(token):
+        msg = "non-canonical base64"
+        raise ValueError(msg)
+    return raw
+
+
 def _compute_call_aad(auth: AuthContext | None) -> bytes:
     r"""Build the AAD that binds a *call* token to its issuing principal.
 
@@ -354,7 +381,7 @@ def _open_call_token_dated(
 
     """
     try:
-        raw = base64.b64decode(token, validate=True)
+        raw = _decode_token(token)
     except Exception as exc:
         raise _token_rejected() from exc
 
@@ -600,7 +627,7 @@ def _open_cursor_token(
 
     """
     try:
-        raw = base64.b64decode(token, validate=True)
+        raw = _decode_token(token)
     except Exception as exc:
         raise _token_rejected() from exc
 
